@@ -13,12 +13,16 @@ Definition connected (s : st) : bool := match state s with Connected => true | _
 Lemma send_not_connected p s : connected s = false -> send_packet p s = (tt, s, []).
 Proof. unfold connected, send_packet, bind, getst. cbv beta iota. destruct (state s); [reflexivity | discriminate | reflexivity]. Qed.
 
-(* disconnect() on a client that is not connected emits nothing and leaves it disconnected with no sid; queue, sockets and tasks untouched *)
+(* disconnect() on a client that is not connected emits nothing and touches neither the queue nor the tasks nor the sockets: a
+   disconnected client stays disconnected with no sid, and while another disconnect() is in progress nothing changes at all *)
 Lemma disconnect_not_connected me abort r s : connected s = false ->
   let x := disconnect_core me abort r s in
-  outof x = [] /\ state (stof x) = Disconnected /\ sid_set (stof x) = false /\ queue (stof x) = queue s /\ tasks (stof x) = tasks s /\
-  conns (stof x) = conns s.
-Proof. unfold connected, disconnect_core, bind, getst, reset, modst, outof, stof. cbv beta iota. destruct (state s); [|discriminate|]; cbn; auto 10. Qed.
+  outof x = [] /\ queue (stof x) = queue s /\ tasks (stof x) = tasks s /\ conns (stof x) = conns s /\
+  match state s with
+  | Disconnecting => stof x = s
+  | _ => state (stof x) = Disconnected /\ sid_set (stof x) = false
+  end.
+Proof. unfold connected, disconnect_core, bind, getst, reset, modst, outof, stof. cbv beta iota. destruct (state s) eqn:E; [|discriminate|]; cbn; rewrite ?E; auto 10. Qed.
 
 (* a PING received while connected is answered by a PONG carrying the same data, queued behind everything already queued *)
 Lemma ping_echo me d s : connected s = true ->
